@@ -34,6 +34,9 @@ ASSUMPTIONS = [
 ]
 WATCHDOG = {"quick": 240.0, "thorough": 900.0}
 ERRS = [errno.EIO, errno.ENOSPC, errno.EACCES]
+# errnos that Python maps onto OSError SUBCLASSES (FileNotFoundError, FileExistsError, PermissionError, InterruptedError, TimeoutError,
+# IsADirectoryError, ...): one of them per fault point, so that a handler that treats some subclass specially is exercised
+SUBCLASS_ERRS = [errno.ENOENT, errno.EEXIST, errno.EPERM, errno.EINTR, errno.ETIMEDOUT, errno.EISDIR, errno.ENOTDIR, errno.ECONNRESET, errno.ESTALE, errno.EDQUOT]
 
 
 class Unserialisable:
@@ -324,7 +327,7 @@ def run_case(desc):
             opname = ops[k - 1].split(":")[0]
             if opname == "remove":
                 continue  # cleanup path of a failing serialisation: a second fault, not enumerated
-            faults = [("raise", e) for e in ERRS] + [("exit", 0), ("raise_base", r.choice([0, 1]))]
+            faults = [("raise", e) for e in ERRS] + [("raise", SUBCLASS_ERRS[(k + desc["seed"]) % len(SUBCLASS_ERRS)]), ("raise", errno.ENOENT)] + [("exit", 0), ("raise_base", r.choice([0, 1]))]
             if opname == "replace":
                 faults.append(("raise", errno.EXDEV))
             if opname in ("replace", "open", "write"):
